@@ -20,7 +20,8 @@ def run(args):
         by = {k: [c for c in cases if c[0].startswith(f"c06 {k} ")] for k in ("const", "run", "construn", "cycle")}
         ctx.evaluations = len(cases)
         m_const = ctx.run_driver([c[0] for c in by["const"]])
-        ctx.tie("model constEval = real checker on `const K = E` (verdict and error class, type, TypeCheckInfo.const_values)", by["const"], m_const)
+        ctx.tie("model constEval = real checker on `const K = E` (verdict and error class, type, TypeCheckInfo.const_values)",
+                [(c[0], " ".join(x for x in c[1].split(" ") if not x.startswith("body="))) for c in by["const"]], m_const)
         built = lambda cs: [c for c in cs if c[1].startswith("ok") or c[1].startswith("err")]  # noqa: E731
         run_b = built(by["run"])
         m_run = ctx.run_driver([c[0] for c in run_b])
@@ -34,9 +35,34 @@ def run(args):
                 "unbuildable_const": 0, "const_vs_body_same": 0, "cycles": 0, "acyclic": 0}
         # ORACLE 1: compile-time value == run-time value of the same expression; compile-time index/step errors == run-time errors
         run_by_expr = {c[0].split(" ")[3]: c[1] for c in by["run"]}
+        hist.update({"python_agrees": 0, "type_agrees": 0})
+        for req, real in by["run"] + by["construn"]:
+            if not (real.startswith("ok") or real.startswith("err")):
+                continue
+            exp = py_oracle(req)
+            if exp is None:
+                continue
+            if real != f"{exp[0]} {exp[1]}":
+                failures.append({"request": req, "real": real, "python": f"{exp[0]} {exp[1]}", "why": "the compiled program's result differs from the documented (Python) meaning of the expression"})
+            else:
+                hist["python_agrees"] += 1
         for req, real in by["const"]:
             expr = req.split(" ")[3]
             ctx.nontrivial.add(expr)
+            if real.startswith("ok"):
+                f = real.split(" ")
+                cty, val, bty = f[1], f[2], f[3].split("=", 1)[1]
+                if bty not in ("rejected", "?") and cty.replace("FrozenStr", "str") != bty.replace("FrozenStr", "str"):
+                    failures.append({"request": req, "real": real, "why": f"the type decided for the const ({cty}) differs from the type of the same expression in a function body ({bty})"})
+                else:
+                    hist["type_agrees"] += 1
+                exp = py_oracle(req)
+                if val != "none" and exp is not None and exp != ("ok", val):
+                    failures.append({"request": req, "real": real, "python": f"{exp[0]} {exp[1]}", "why": "the value recorded for the const differs from the documented (Python) meaning of its initializer"})
+            elif real in ("err stringIndexOutOfRange", "err sliceStepZero"):
+                exp = py_oracle(req)
+                if exp is not None and exp != ("err", real.split(" ")[1]):
+                    failures.append({"request": req, "real": real, "python": f"{exp[0]} {exp[1]}", "why": "a compile-time index/step error is reported where evaluation has none (or another one)"})
             if real.startswith("panic") or real.startswith("lex-error") or real.startswith("parse-error"):
                 failures.append({"request": req, "real": real, "why": "checker did not produce a verdict for a generated const initializer"})
                 continue
@@ -101,6 +127,161 @@ def run(args):
     return ctx.finish(
         rule="seeded random const initializers over 8 base consts (strings with non-ASCII and escapes, empty string, positive/negative/zero ints, bool, float): string concat/index/slice (all bound combinations, known and unknown bounds, nested slices), int/float arithmetic (7 operators), comparisons, and/or/not, membership, ill-typed and non-const shapes; each through the real checker; the well-typed ones also evaluated in a function body of a compiled program; the emittable fragment also as a compiled const; random const dependency graphs (forward-only and arbitrary edges) under a watchdog; past failures first; distinct = distinct expression / graph",
         extra_cov=getattr(ctx, "coverage_extra", None))
+
+
+# ---------------------------------------------------------------- Python itself as the oracle for values
+import struct
+
+
+class Unsupported(Exception):
+    pass
+
+
+def dec_str(t):
+    return "" if t == "-" else "".join(chr(int(x, 16)) for x in t.split(","))
+
+
+def parse_e(toks):
+    """prefix tokens -> nested tuple; returns (node, rest)"""
+    t, rest = toks[0], toks[1:]
+    k, tl = t[0], t[1:]
+    if k == "i":
+        return ("int", int(tl)), rest
+    if k == "f":
+        return ("float", struct.unpack(">d", bytes.fromhex(tl))[0]), rest
+    if k == "b":
+        return ("bool", tl == "T"), rest
+    if k == "s":
+        return ("str", dec_str(tl)), rest
+    if k == "r":
+        return ("ref", tl), rest
+    if k == "A":
+        return ("absent",), rest
+    if k == "O":
+        return ("other",), rest
+    if k in "N!":
+        e, rest = parse_e(rest)
+        return ("neg" if k == "N" else "not", e), rest
+    if k == "B":
+        l, rest = parse_e(rest)
+        r, rest = parse_e(rest)
+        return ("bin", tl, l, r), rest
+    if k == "X":
+        b, rest = parse_e(rest)
+        i, rest = parse_e(rest)
+        return ("index", b, i), rest
+    if k == "S":
+        b, rest = parse_e(rest)
+        a, rest = parse_e(rest)
+        c, rest = parse_e(rest)
+        d, rest = parse_e(rest)
+        return ("slice", b, a, c, d), rest
+    raise Unsupported(t)
+
+
+def py_eval(e, env):
+    k = e[0]
+    if k in ("int", "float", "bool", "str"):
+        return e[1]
+    if k == "ref":
+        if e[1] not in env:
+            raise Unsupported("ref")
+        return env[e[1]]
+    if k == "neg":
+        v = py_eval(e[1], env)
+        if isinstance(v, bool) or not isinstance(v, (int, float)):
+            raise Unsupported("neg")
+        return -v
+    if k == "not":
+        v = py_eval(e[1], env)
+        if not isinstance(v, bool):
+            raise Unsupported("not")
+        return not v
+    if k == "index":
+        b, i = py_eval(e[1], env), py_eval(e[2], env)
+        if not isinstance(b, str) or isinstance(i, bool) or not isinstance(i, int):
+            raise Unsupported("index")
+        return b[i]
+    if k == "slice":
+        b = py_eval(e[1], env)
+        bounds = [None if x[0] == "absent" else py_eval(x, env) for x in e[2:5]]
+        if not isinstance(b, str) or any(isinstance(x, bool) or not (x is None or isinstance(x, int)) for x in bounds):
+            raise Unsupported("slice")
+        return b[bounds[0]:bounds[1]:bounds[2]]
+    if k == "bin":
+        op = e[1]
+        if op in ("and", "or"):
+            l = py_eval(e[2], env)
+            if not isinstance(l, bool):
+                raise Unsupported("logic")
+            if (op == "and" and not l) or (op == "or" and l):
+                return l
+            r = py_eval(e[3], env)
+            if not isinstance(r, bool):
+                raise Unsupported("logic")
+            return r
+        l, r = py_eval(e[2], env), py_eval(e[3], env)
+        num = lambda v: isinstance(v, (int, float)) and not isinstance(v, bool)  # noqa: E731
+        if op in ("in", "notIn"):
+            if not (isinstance(l, str) and isinstance(r, str)):
+                raise Unsupported("in")
+            return (l in r) if op == "in" else (l not in r)
+        if op in ("eq", "ne", "lt", "gt", "le", "ge"):
+            if not ((num(l) and num(r)) or (type(l) is type(r))):
+                raise Unsupported("cmp")
+            return {"eq": l == r, "ne": l != r, "lt": l < r, "gt": l > r, "le": l <= r, "ge": l >= r}[op]
+        if op == "add" and isinstance(l, str) and isinstance(r, str):
+            return l + r
+        if not (num(l) and num(r)):
+            raise Unsupported("arith")
+        if op == "add":
+            return l + r
+        if op == "sub":
+            return l - r
+        if op == "mul":
+            return l * r
+        if op == "div":
+            return l / r
+        if op == "floorDiv":
+            return l // r
+        if op == "mod":
+            return l % r
+        if op == "pow":
+            # Incan: int result only for a non-negative int literal exponent
+            lit_nonneg = e[3][0] == "int"
+            v = l ** r
+            return v if (lit_nonneg and isinstance(l, int)) else float(v)
+    raise Unsupported(k)
+
+
+def show_py(v):
+    if isinstance(v, bool):
+        return f"bool:{str(v).lower()}"
+    if isinstance(v, int):
+        return f"int:{v}"
+    if isinstance(v, float):
+        return "float:" + struct.pack(">d", v).hex()
+    return "str:" + (",".join(format(ord(c), "x") for c in v) if v else "-")
+
+
+def py_oracle(req):
+    """('ok', shown) | ('err', class) | None when outside what Python can judge"""
+    parts = req.split(" ")
+    env = {}
+    try:
+        for d in parts[2].split("|"):
+            n, enc = d.split("=")
+            env[n] = py_eval(parse_e(enc.split(";"))[0], env)
+        e = parse_e(parts[3].split(";"))[0]
+        return ("ok", show_py(py_eval(e, env)))
+    except ZeroDivisionError:
+        return ("err", "zeroDivision")
+    except IndexError:
+        return ("err", "stringIndexOutOfRange")
+    except ValueError:
+        return ("err", "sliceStepZero")
+    except (Unsupported, OverflowError, TypeError):
+        return None
 
 
 def has_cycle(g):
